@@ -706,16 +706,22 @@ func parseVerbatim(t *Tree, start Pos) (Node, error) {
 		case tokenError:
 			return nil, newUnexpectedTokenError(tok)
 		case tokenTagOpen:
-			tok := t.next()
+			open := t.next()
+			mark := len(t.read)
 			tok, err := t.expect(tokenName)
-			if err != nil {
-				return nil, err
-			}
-			if tok.value == "end"+tagName {
+			if err == nil && tok.value == "end"+tagName {
 				if _, err := t.expect(tokenTagClose); err != nil {
 					return nil, err
 				}
 				return NewTextNode(body.String(), start), nil
+			}
+			// Not the end tag: everything read so far is part of the body.
+			if tok.tokenType == tokenEOF || tok.tokenType == tokenError {
+				t.backup()
+			}
+			body.WriteString(open.value)
+			for _, tok := range t.read[mark:] {
+				body.WriteString(tok.value)
 			}
 		default:
 			tok := t.next()
